@@ -841,8 +841,26 @@ class Engine:
         return v
 
     def ex_JoinedStr(self, node, frame):
-        # message text: contents dropped (DESIGN 2.2); pieces are not evaluated
-        return VStr(self.fresh("fstr", S))
+        # f-strings made only of literal text and names bound to str values are evaluated (they are used
+        # as dictionary keys); any other f-string is message text: contents dropped (DESIGN 2.2)
+        parts = []
+        for v in node.values:
+            if isinstance(v, ast.Constant) and isinstance(v.value, str):
+                parts.append(z3.StringVal(v.value))
+            elif isinstance(v, ast.FormattedValue) and v.conversion == -1 and v.format_spec is None and isinstance(v.value, ast.Name):
+                try:
+                    val = self.lookup(v.value.id, frame, v.value)
+                except Unsupported:
+                    val = None
+                if isinstance(val, VStr):
+                    parts.append(val.t)
+                else:
+                    return VStr(self.fresh("fstr", S))
+            else:
+                return VStr(self.fresh("fstr", S))
+        if not parts:
+            return VStr("")
+        return VStr(parts[0] if len(parts) == 1 else z3.Concat(*parts))
 
     def ex_Tuple(self, node, frame):
         items = []
